@@ -962,8 +962,10 @@ def main(chk: core.Check) -> int:
     c16_skel.prepare(chk)       # Generated/PrunersSkel.lean (Props/C13Bridge gen_prune_mirror* go through C16SkelGen.skel_prune_eq)
     from verif.props import c15_nsga
     c15_nsga.translate(chk)     # T-nsga2: content keys of the NSGA-II functions mirrored by Model/Nsga2.lean
+    from verif.props import c16_report_gen
+    c16_report_gen.regenerate(chk)  # Generated/ReportMethods.lean (Props/C13History goes through the generated Trial.report / should_prune)
     if not getattr(chk, "no_prove", False):
-        chk.prove(["OptunaVerif.Props.C13", "OptunaVerif.Props.C13Nsga", "OptunaVerif.Props.C13Bridge"] + c13_tpe.PROPS_MODULES + c16_wilcoxon.PROPS_MODULES)
+        chk.prove(["OptunaVerif.Props.C13", "OptunaVerif.Props.C13Nsga", "OptunaVerif.Props.C13Bridge", "OptunaVerif.Props.C13History"] + c13_tpe.PROPS_MODULES + c16_wilcoxon.PROPS_MODULES)
     quick = chk.tier == "quick"
     try:
         core.ensure_driver()
